@@ -542,7 +542,7 @@ def c03_run_recipe(sr, work, drv, inp, shrink=True, deadline=None, shrunk=None):
     else:
         res = c03_eval(work, drv, nl, trig)
     f = G.features03(inp["net"])
-    sr.case(stable_hash(inp["net"]), f["nontrivial"])
+    sr.case(stable_hash([inp["net"], inp.get("history")]), f["nontrivial"])
     sr.dist("c03.api" + (".trigger=" + trig if trig else ""))
     sr.dist("c03.size.libs=%d" % min(f["libs"], 4))
     if f["buses"]:
